@@ -1,2 +1,3 @@
 //! Shared helpers for the correspondence harness binaries (see /verif/DESIGN.md section 2).
 pub mod common;
+pub mod runner;
